@@ -188,7 +188,7 @@ class Engine(EngineBase):
             opts["strategy"] = rng.choice(["always", "always", "update", None])
             opts["dry_run"] = False
             opts["selection"] = None
-        if src_jobs and rng.random() < 0.35 and not (P == "C15" and opts["parallel"]):
+        if src_jobs and rng.random() < 0.35:
             opts["selection"] = sorted(rng.sample(sorted(src_jobs), rng.randrange(0, len(src_jobs) + 1)))
         entry = rng.choice(["Project.sync", "Project.sync", "sync_projects", "Job.sync", "sync_jobs"])
         pair = None
